@@ -1272,6 +1272,11 @@ class Interp:
                 return Const(False)
             return Unknown('callable')
         if name == 'getattr' and len(args) >= 2 and isinstance(args[1], Const):
+            if len(args) == 3:
+                # getattr(o, name, default) is `o.name if hasattr(o, name) else default`: the same decision as hasattr takes
+                h = self.call_builtin('hasattr', [args[0], args[1]], {}, node, frame)
+                if isinstance(h, Const) and h.v is False:
+                    return args[2]
             return self.getattr(args[0], args[1].v, node, frame)
         if name == 'setattr' and len(args) == 3 and isinstance(args[1], Const) and isinstance(args[1].v, str):
             self.setattr(args[0], args[1].v, args[2], node, frame)
